@@ -138,7 +138,8 @@ type serverConn struct {
 	maxRequestTimer *time.Timer
 	maxIdleTimer    *time.Timer
 
-	closer chan struct{}
+	closer   chan struct{}
+	idleOnce sync.Once
 
 	debug  bool
 	logger fasthttp.Logger
@@ -147,11 +148,18 @@ type serverConn struct {
 }
 
 func (sc *serverConn) closeIdleConn() {
-	sc.writeGoAway(0, NoError, "connection has been idle for a long time")
-	if sc.debug {
-		sc.logger.Printf("Connection is idle. Closing\n")
-	}
-	close(sc.closer)
+	// Once only. The stream loop re-arms the idle timer for every request, and
+	// its select may take a request that is already waiting before it takes
+	// closer: the timer then ran a second time, closed closer again, and the
+	// panic - on the timer's goroutine, where nothing recovers it - took the
+	// whole process down.
+	sc.idleOnce.Do(func() {
+		sc.writeGoAway(0, NoError, "connection has been idle for a long time")
+		if sc.debug {
+			sc.logger.Printf("Connection is idle. Closing\n")
+		}
+		close(sc.closer)
+	})
 }
 
 func (sc *serverConn) Handshake() error {
